@@ -201,6 +201,19 @@ def gen_inputs(ctx):
         for _ in range(ctx.n(1, 6)):
             c = [(k, v) for k, v in configs.synthetic(rnd) if k not in (key, key + ' Adjustment Factor', 'Total Capital Cost', 'Total O&M Cost')]
             cfgs.append(c + [(key, '0')])
+    # user-fixed per-well costs: production and injection figures both supplied and different (also injection only, and a
+    # fixed production figure with no injection wells' own figure): "wellfield cost is the per-well costs reported times the
+    # numbers of wells"
+    for j in range(ctx.n(4, 40)):
+        c = [(k, v) for k, v in configs.synthetic(rnd) if not k.startswith(('Well Drilling and Completion Capital Cost',
+             'Injection Well Drilling and Completion Capital Cost', 'Total Capital Cost', 'Number of Injection Wells'))]
+        c.append(('Number of Injection Wells', str(rnd.choice([1, 2, 3, 5]))))
+        pc, ic = configs.dec(rnd, 2, 9, 2), configs.dec(rnd, 0.5, 12, 2)
+        if j % 4 != 2:
+            c.append(('Well Drilling and Completion Capital Cost', pc))
+        if j % 4 != 3:
+            c.append(('Injection Well Drilling and Completion Capital Cost', ic))
+        cfgs.append(c)
     for _ in range(ctx.n(2, 12)):   # district network cost supplied with the value that happens to be the declared default (10 M$)
         c = [(k, v) for k, v in configs.synthetic(rnd, enduse=2, plant=7, resmodel=4, life=5)
              if not k.startswith(('Total District', 'District Heating Network', 'District Heating Road', 'District Heating Land', 'District Heating Pop',
